@@ -2,7 +2,8 @@ import sys, importlib
 from pyvc.runner import run_unit
 mod = importlib.import_module(sys.argv[1])
 sel = next((a for a in sys.argv[2:] if not a.startswith('-')), None)
-for u in mod.UNITS:
+from pyvc.runner import all_units
+for u in all_units(mod):
     if sel and sel not in u.name: continue
     r = run_unit(u)
     print('==', u.name, 'paths', r['paths'], 'err', r['error'], 'wall', r.get('wall_s'))
